@@ -20,4 +20,9 @@ pub broadcast proof fn axiom_nodeid_derived_eq_obeys()
 pub broadcast proof fn axiom_question_mark_error(e: alloy_rlp::Error, e2: crate::code::error::Error)
     ensures #[trigger] vstd::std_specs::control_flow::spec_from(e, e2) ==> e2 == crate::code::error::Error::InvalidRlpData(e),
 {}
+/// T10': `#[derive(Hash)]` on `NodeId` feeds a function of its 32 raw bytes
+#[verifier::external_body]
+pub proof fn axiom_hash_tok_nodeid(a: &NodeId, b: &NodeId)
+    ensures a.raw@ == b.raw@ ==> crate::sp::hash_tok(a) == crate::sp::hash_tok(b),
+{}
 pub broadcast group group_trusted_code { axiom_nodeid_derived_eq, axiom_nodeid_derived_eq_obeys, axiom_question_mark_error }
